@@ -209,7 +209,7 @@ func vC15CEMsg(r *rand.Rand) *dns.Msg {
 	}
 	m.Answer, m.Ns, m.Extra = fill(r.Intn(4)), fill(r.Intn(3)), fill(r.Intn(3))
 	// a DNSSEC object wearing another type, another object wearing a DNSSEC type: the filters go by object
-	if all := append(append([]dns.RR{}, m.Answer...), m.Ns...); len(all) > 0 && r.Intn(8) == 0 {
+	if all := append(append([]dns.RR{}, m.Answer...), m.Ns...); len(all) > 0 && r.Intn(5) == 0 {
 		rr := all[r.Intn(len(all))]
 		if _, isSig := rr.(*dns.RRSIG); isSig {
 			rr.Header().Rrtype = dns.TypeTXT
